@@ -1500,6 +1500,21 @@ class Interp:
                 if not prefix:
                     break
             return out
+        if isinstance(c, ast.Compare) and len(c.ops) == 1 and isinstance(c.ops[0], (ast.Eq, ast.NotEq)):
+            # (x & 2**k) == 0 / != 0 on x in [0, 2**(k+1) - 1]: the test splits the range at 2**k
+            l0, r0 = c.left, c.comparators[0]
+            if isinstance(r0, ast.BinOp) and isinstance(r0.op, ast.BitAnd):
+                l0, r0 = r0, l0
+            if isinstance(l0, ast.BinOp) and isinstance(l0.op, ast.BitAnd) and isinstance(l0.left, (ast.Name, ast.Attribute)):
+                zero = self.ev(r0, st, fn, depth)
+                mask = self.ev(l0.right, st, fn, depth)
+                xv = self.ev(l0.left, st, fn, depth)
+                kx = self.key_of(l0.left, fn)
+                if isinstance(zero, Iv) and zero.const and zero.lo == 0 and isinstance(mask, Iv) and mask.const and mask.lo > 0 and int(mask.lo) & (int(mask.lo) - 1) == 0 and isinstance(xv, Iv) and xv.lo >= 0 and xv.hi <= 2 * mask.lo - 1 and kx is not None:
+                    clear = isinstance(c.ops[0], ast.Eq) == truth
+                    m = mask.lo
+                    nv = Iv(xv.lo, min(xv.hi, m - 1), xv.prec) if clear else Iv(max(xv.lo, m), xv.hi, xv.prec)
+                    return [] if nv.empty else [st.refine(kx, nv)]
         if isinstance(c, ast.Compare):
             parts = []
             left = c.left
